@@ -32,6 +32,9 @@ func runOp(line string) (out string) {
 	if s, ok := kernOp(toks); ok {
 		return s
 	}
+	if s, ok := kprocOp(toks); ok {
+		return s
+	}
 	if s, ok := geomOp(toks); ok {
 		return s
 	}
